@@ -73,7 +73,7 @@ def deep_contains(W, t, pred, depth=0):
     return False
 
 
-def fold_reach(fn, ev, env_fn):
+def fold_reach(fn, ev, env_fn, cond_fn=None):
     """Blocks reachable when every branch whose condition is decidable under env_fn(term)->int|None is folded."""
     seen = {0}
     work = [0]
@@ -84,6 +84,18 @@ def fold_reach(fn, ev, env_fn):
         if t["k"] == "switch" and t.get("ty") == "bool":
             cond = ev.op(t["op"], (b, "term"))
             rels = flow.relational(("eq", cond, True))
+            forced = cond_fn(cond) if cond_fn else None
+            if forced is not None:
+                tgt = t["otherwise"]
+                if not forced:
+                    for val, bb in t["cases"]:
+                        if val == 0:
+                            tgt = bb
+                for s2 in [tgt]:
+                    if s2 not in seen:
+                        seen.add(s2)
+                        work.append(s2)
+                continue
             env = {}
             for r in rels:
                 for s in values.subterms((r[1], r[2])):
@@ -317,8 +329,49 @@ def run(ctx):
             for r in flow.relational(f):
                 if values.contains((r[1], r[2]), lambda s: is_call(s) and s[1].endswith("ServerConfig::seed")) and any(x == ("int", 32) for x in values.subterms((uncast(r[1]), uncast(r[2])))):
                     seed32 = True
-    okseed = seed32
-    ctx.check("range-checks", "seed/length-32", okseed, "a plaintext seed must be 32 bytes", "no seed length check against 32", ctx.loc(iv))
+    # plaintext seed: accepted iff exactly 32 bytes (kms_protection == Plaintext assumed)
+    def kms_cond(c):
+        neg = False
+        while isinstance(c, tuple) and c[0] == "un" and c[1] == "Not":
+            c = c[2]
+            neg = not neg
+        if is_call(c) and callee_name(c[1]) in ("eq", "ne") and any(is_call(a) and a[1].endswith("ServerConfig::kms_protection") for a in c[2]):
+            # the only KmsProtection value that can be a compile-time constant is the data-less variant Plaintext
+            plain = any(a[0] in ("opaque", "bytes", "enum") or (a[0] == "agg" and str(a[1]).endswith("KmsProtection::Plaintext")) for a in c[2])
+            if plain:
+                v = callee_name(c[1]) == "eq"
+                return (not v) if neg else v
+        return None
+    grid = [0, 1, 16, 31, 32, 33, 64, 65, 100]
+    sreach = {}
+    for v in grid:
+        def env_fn(s, v=v):
+            if isinstance(s, tuple) and s and s[0] == "len" and is_call(s[1]) and s[1][1].endswith("ServerConfig::seed"):
+                return v
+            return None
+
+        def cond_fn(c, v=v):
+            k = kms_cond(c)
+            if k is not None:
+                return k
+            c2 = c
+            neg = False
+            while isinstance(c2, tuple) and c2[0] == "un" and c2[1] == "Not":
+                c2 = c2[2]
+                neg = not neg
+            if is_call(c2) and callee_name(c2[1]) == "is_empty" and is_call(c2[2][0]) and c2[2][0][1].endswith("ServerConfig::seed"):
+                return (v == 0) != neg
+            return None
+        sreach[v] = fold_reach(iv, iev, env_fn, cond_fn)
+    sens = [fb for fb in fblocks if len({fb in sreach[v] for v in grid}) > 1]
+    bad = None
+    for v in grid:
+        rej = any(fb in sreach[v] for fb in sens)
+        if rej != (v != 32):
+            bad = "a plaintext seed of %d bytes is %s" % (v, "rejected" if rej else "accepted")
+            break
+    okseed = seed32 and bool(sens) and bad is None
+    ctx.check("range-checks", "seed/length-32", okseed, "a plaintext seed is accepted iff it is exactly 32 bytes", "plaintext seed length rule differs: %s" % (bad or "no check found"), ctx.loc(iv))
     ctx.check("range-checks", "interface/non-empty", "interface" in found, "interface must not be empty", "no check on interface", ctx.loc(iv))
 
     # ------------------------------------------------------------------ refusal in main
